@@ -9,7 +9,7 @@ from tools.force.fruchterman_reingold import circle_circle_intersection_area
 
 PID = 'C17'
 FUNCTIONS = ['circle_circle_intersection_area', 'Point.__sub__', 'Point.__neg__', 'Point.__add__', 'Point.norm']
-BOUNDS = {'quick': 'R model: all centres and radii reals (|coordinate| <= 1e6, 1e-6 <= r <= 1e6), acos uninterpreted with '
+BOUNDS = {'quick': 'binary64 totality also probed for radii >= 1.34e154 (known finding: OverflowError); R model: all centres and radii reals (|coordinate| <= 1e6, 1e-6 <= r <= 1e6), acos uninterpreted with '
                    'sin(acos t)=sqrt(1-t^2); F model (binary64, QF_FP): see the fp_* jobs',
           'thorough': 'same, longer solver budgets'}
 STUBS = ['max/min inside the module as if-then-else terms (same value as the builtins, no fork)', 'math.acos / math.asin: Ackermannised uninterpreted functions on [-1,1] (domain error outside) with range, monotonicity and the principal-value identities acos t = asin(sqrt(1-t^2)) (t>=0), = pi - asin(sqrt(1-t^2)) (t<0); sin(acos t) = sqrt(1-t^2), cos(acos t) = t, sin(asin t) = t; sqrt: s>=0 and s*s=arg',
@@ -50,7 +50,18 @@ def cases(tier):
     for h in HINTS:
         cs.append(dict(kind='fp-body', hint=h))
     cs.append(dict(kind='fp-norm'))
+    # radii and distance beyond sqrt(max binary64): the squares overflow (recorded known finding; any OTHER failure there is new)
+    cs.append(dict(kind='fp-body', hint='huge'))
     return cs
+
+
+HUGE = 1.3407807929942597e154   # sqrt(2^1024): x**2 raises OverflowError in Python from here on
+
+
+def classify(case, label, values):
+    if case.get('hint') == 'huge' and label == 'total:never-fails(binary64):OverflowError':
+        return 'C17-overflow-huge-radii'
+    return None
 
 
 # contract of the distance computed by Point.norm on bounded coordinates (proved on the real code by the fp-norm job,
@@ -128,14 +139,16 @@ def _mentions_acos(a):
 
 def body_fp(I, case):
     """binary64 totality of the function body, the centre distance being a fresh value satisfying the norm contract"""
-    r1 = I.fp('r1', 1e-6, 1e6)
-    r2 = I.fp('r2', 1e-6, 1e6)
-    d = I.fp('d', 0.0, DMAX)
+    huge = case['hint'] == 'huge'
+    r1 = I.fp('r1', 1e-6, 1e6) if not huge else I.fp('r1', HUGE, 1.7e308)
+    r2 = I.fp('r2', 1e-6, 1e6) if not huge else I.fp('r2', HUGE, 1.7e308)
+    d = I.fp('d', 0.0, DMAX) if not huge else I.fp('d', 0.0, 1.7e308)
     if I.mode == 'symbolic':
         from fv import symf
         FR.math = symf.FMATH
         FR.max, FR.min = symx.sym_max, symx.sym_min  # numeric max/min as if-then-else terms (same value, no fork)
-        I.assume(norm_contract(d))
+        if not huge:
+            I.assume(norm_contract(d))
         Point._fv_norm = d
         h = case['hint']
         if h == 'd=r1+r2':
@@ -148,13 +161,15 @@ def body_fp(I, case):
     else:
         if not (d == 0.0 or d >= DMIN):
             I.discard('outside the norm contract')
+        if huge:   # the distance of the replay is the model's d: centres (0,0) and (d,0) would overflow inside norm itself
+            Point._fv_norm = d
     c1, c2 = Point(0.0, 0.0), Point(d, 0.0)
     try:
         a = circle_circle_intersection_area(c1, r1, c2, r2)
     except (ValueError, ZeroDivisionError, OverflowError) as e:
         I.detail = f"raised {type(e).__name__}: {e}"
         I.reached('fp-exception-path')
-        I.prove('total:never-fails(binary64)', False)
+        I.prove('total:never-fails(binary64)' + (':' + type(e).__name__ if huge else ''), False)
         return
     finally:
         Point._fv_norm = None
